@@ -1,3 +1,4 @@
 -- root of the library: every property module (so that `lake build` checks everything)
 import Gmsm.Props.C05
 import Gmsm.Props.C04
+import Gmsm.Props.C11
